@@ -116,8 +116,8 @@ func classify(kind string, diff []string) (classes []string, bound []string) {
 				c = "documented:size"
 			case "b.meta.raw", "m.lc.raw":
 				c = "encoding"
-			case "c.h", "c.r", "c.bid":
-				c = "FINDING:lastcommit-header-fields"
+			case "c.r":
+				c = "FINDING:lastcommit-round"
 			}
 		case "res", "resc":
 			switch {
